@@ -53,6 +53,7 @@ class EngineWorld:
     def obj(self, cls, **fields):
         if isinstance(cls, str):
             cls = resolve_class(cls)
+        check_private_fields(cls, fields)
         o = SObj(cls, {k: self.val(v) for k, v in fields.items()})
         return o
 
@@ -110,6 +111,8 @@ class EngineWorld:
         mod = self.interp.loader.module(module)
         o = mod
         for part in qualname.split("."):
+            if not hasattr(o, part):
+                raise MissingTarget("%s:%s" % (module, qualname))
             o = getattr(o, part)
         return self.interp.lift(o)
 
@@ -183,6 +186,8 @@ class EngineWorld:
         it = self.interp
         t = call.target
         if t[0] == "method":
+            if isinstance(t[1], SObj) and it.find_class_attr(t[1].cls, t[2]) is I._NOTFOUND and t[2] not in t[1].fields:
+                raise MissingTarget("%s.%s" % (getattr(t[1].cls, "__name__", t[1].cls), t[2]))
             f = it.getattr(t[1], t[2])
             return it.call(f, call.args, call.kwargs)
         if t[0] == "func":
@@ -201,13 +206,69 @@ class EngineWorld:
         raise Unsupported("call target %r" % (t,))
 
     def setfield(self, obj, name, v):
+        if isinstance(obj, SObj):
+            check_private_fields(obj.cls, [name])
         obj.fields[name] = v
 
     def get(self, obj, name):
         """read a field for specs (no property evaluation)"""
         if isinstance(obj, SObj):
+            if name not in obj.fields and V._private(name):
+                raise V.MissingField(name)
             return obj.fields.get(name)
         return self.interp.getattr(obj, name)
+
+
+class MissingTarget(Unsupported):
+    """the function or method a contract is written for does not exist (any more): undecided, never a violation"""
+
+    def __str__(self):
+        return "the contracted function %s does not exist in the current source (renamed or removed?)" % (self.args[0],)
+
+
+_DECLARED = {}
+
+
+def declared_attrs(cls):
+    """names a real (canopen) class gives its instances: `self.<name> = ...` anywhere in the class or its canopen bases,
+    class-level names, methods and properties - read from the current source"""
+    if cls in _DECLARED:
+        return _DECLARED[cls]
+    import ast, inspect, sys
+    names = set()
+    for k in cls.__mro__:
+        mod = getattr(k, "__module__", "") or ""
+        if not (mod == "canopen" or mod.startswith("canopen.") or mod.startswith("env.")):
+            names.update(n for n in vars(k))
+            continue
+        try:
+            tree = ast.parse(inspect.getsource(sys.modules[mod]))
+        except (OSError, TypeError, KeyError):
+            return None
+        for node in ast.walk(tree):
+            if isinstance(node, ast.ClassDef) and node.name == k.__name__:
+                for n in ast.walk(node):
+                    if isinstance(n, ast.Attribute) and isinstance(n.ctx, ast.Store):
+                        names.add(n.attr)        # self.x = ... (also other.x = ...: over-approximation is harmless)
+                    elif isinstance(n, (ast.FunctionDef, ast.AsyncFunctionDef, ast.ClassDef)):
+                        names.add(n.name)
+                    elif isinstance(n, ast.Name) and isinstance(n.ctx, ast.Store):
+                        names.add(n.id)
+    _DECLARED[cls] = names
+    return names
+
+
+def check_private_fields(cls, fields):
+    """a contract builds its pre-state through attribute names; a PRIVATE name the class no longer uses means the
+    implementation detail was renamed or removed: the contract is not applicable as written (undecided)"""
+    if not any((getattr(k, "__module__", "") or "").split(".")[0] == "canopen" for k in cls.__mro__):
+        return
+    names = declared_attrs(cls)
+    if names is None:
+        return
+    for k in fields:
+        if V._private(k) and k not in names:
+            raise V.MissingField(k)
 
 
 def resolve_class(dotted):
@@ -306,6 +367,7 @@ class NativeWorld:
     def obj(self, cls, **fields):
         if isinstance(cls, str):
             cls = resolve_class(cls)
+        check_private_fields(cls, fields)
         o = cls.__new__(cls)
         for k, v in fields.items():
             try:
@@ -422,6 +484,7 @@ class NativeWorld:
         raise Unsupported("call target %r" % (t,))
 
     def setfield(self, obj, name, v):
+        check_private_fields(type(obj), [name])
         setattr(obj, name, v)
 
     def get(self, obj, name):
